@@ -175,6 +175,22 @@ def binary_worlds(sc, r, tier):
         if r1["rc"] != 0 or r2["rc"] != 0 or os.path.exists(A + "/z") or not os.path.exists(B + "/a_old"):
             viol.append({"world": "time stamp before 1970", "why": "exit %s/%s (stderr %r); after the one-sided deletion of z: A has z=%s, B has a_old=%s"
                          % (r1["rc"], r2["rc"], (r1["err"] + r2["err"])[-200:], os.path.exists(A + "/z"), os.path.exists(B + "/a_old"))})
+        # (6) an ignore file appears on one side and hides a synchronised file there (and a never-synchronised one): nobody deleted or
+        # edited anything else, so every version must still be there afterwards
+        for strat in r.sample(bc.STRATS, 2):
+            base = os.path.join(sc.dir, "bw-ign-%d-%s" % (k, strat)); A, B = base + "/A", base + "/B"
+            put(A + "/f", b"v0"); put(A + "/keep", b"keep"); os.makedirs(B, exist_ok=True)
+            world.run_sy(["--bidirectional", A, B, "-q"], sc)
+            side, other = (A, B) if k % 2 == 0 else (B, A)
+            put(side + "/f", b"edit-on-the-hiding-side"); put(other + "/f", b"edit-on-the-other-side!")
+            put(side + "/g", b"g-here"); put(other + "/g", b"g-there-longer")
+            put(side + "/.ignore", b"f\ng\n")
+            before = versions(A, B)
+            rr = [world.run_sy(["--bidirectional", A, B, "-q", "--conflict-resolve", strat, "--max-delete", "0"], sc) for _ in range(2)]
+            n += 1
+            lost = before - versions(A, B)
+            if lost and all(x["rc"] == 0 for x in rr):
+                viol.append({"world": "ignore file hides synchronised files on one side", "strategy": strat, "why": "versions on neither side after two error-free runs: %r" % sorted(lost)[:3]})
         # (3) the conflict name the rename strategy is about to take is a file of the user's on the OTHER side
         import time
         base = os.path.join(sc.dir, "bw-cname-%d" % k); A, B = base + "/A", base + "/B"
